@@ -48,7 +48,7 @@ def main():
         ev += st["evaluations"]; nt.update(st["nontrivial"])
         for k, v in st["classes"].items(): classes[k] += v
         for f, c in fails:
-            key = re.sub(r"\d+", "N", str(f.get("what")))[:160] if not f.get("inconclusive") else "INCONCLUSIVE " + str(f.get("why"))
+            key = re.sub(r"\d+", "N", re.sub(r"'[^']*'|\"[^\"]*\"|\([^)]*\)", "Q", str(f.get("what"))))[:160] if not f.get("inconclusive") else "INCONCLUSIVE " + str(f.get("why"))
             hist[key] += 1
             if key not in ex or len(json.dumps(c)) < len(json.dumps(ex[key][1])):
                 ex[key] = (f, c)
